@@ -11,6 +11,70 @@ WRITE = "state::ProcessTransaction::write"
 PS_WRITE = "state::ProcessState::write"
 
 
+SQL_EXEC = r"rusqlite::Connection::(execute|execute_batch)|rusqlite::.*Connection>?::(execute|execute_batch)"
+# bodies audited to execute SQL directly for a reason other than writing records (frozen table, one reason each)
+AUDITED_EXECUTORS = {"state::ProcessTransaction::new": "BEGIN", "state::ProcessTransaction::finish_": "COMMIT/ROLLBACK",
+                     "state::ProcessState::init": "schema + run id inside the start-up transaction", "state::connect": "pragmas"}
+
+
+def sql_executors(prog):
+    """{body key: [bb]} bodies that hand SQL text to the connection directly (`Connection::execute[_batch]`)."""
+    out = {}
+    for b in prog.bodies.values():
+        for i in BA.of(b).calls(SQL_EXEC):
+            out.setdefault(b.key, []).append(i)
+    return out
+
+
+def _private(prog, key):
+    f = prog.fns.get(key)
+    return f is not None and f["vis"] not in ("pub", "crate")
+
+
+def writer_funnel(prog, cg, depth=4):
+    """WHO(record-writing SQL) as a funnel, independent of how many private layers the writer has.
+
+    The *primitive writers* are the bodies that execute SQL directly and are not in the audited table (today
+    `ProcessState::write`; after inlining it, `ProcessTransaction::write` itself). From every primitive the callers
+    are followed upwards; the walk must end in `ProcessTransaction::write` (WRITE) having met only private functions
+    that are called directly (never address-taken) - i.e. WRITE is the only door to record-writing SQL.
+    Returns (members, problems): members = [(key, role)] with role 'primitive' / 'layer' / 'door' in discovery order,
+    problems = [(key, text)]."""
+    ex = sql_executors(prog)
+    prims = sorted(k for k in ex if k not in AUDITED_EXECUTORS)
+    members, problems = [], []
+    seen = set()
+    todo = [(k, "primitive", 0) for k in prims]
+    while todo:
+        k, role, d = todo.pop(0)
+        if k in seen:
+            continue
+        seen.add(k)
+        if k == WRITE:
+            members.append((k, "door"))
+            continue
+        members.append((k, role))
+        if not _private(prog, k):
+            problems.append((k, "%s executes or forwards record-writing SQL but is not private (visibility %s)" % (k, (prog.fns.get(k) or {}).get("vis", "closure/unknown"))))
+            continue
+        cs = cg.callers_of(k)
+        if "<indirect>" in cs:
+            problems.append((k, "%s is address-taken: its callers cannot be enumerated" % k))
+        cs = [c for c in cs if c != "<indirect>"]
+        if not cs:
+            problems.append((k, "%s has no caller: the path from ProcessTransaction::write to the SQL is gone" % k))
+        if d >= depth:
+            problems.append((k, "more than %d layers between the SQL and ProcessTransaction::write" % depth))
+            continue
+        for c in cs:
+            todo.append((c, "layer", d + 1))
+    if not prims:
+        problems.append(("-", "no body executes record-writing SQL (anchor lost)"))
+    elif WRITE not in seen:
+        problems.append((WRITE, "ProcessTransaction::write is not on the path to the SQL"))
+    return members, problems
+
+
 def txn_sites(prog):
     """[(body, bb, behaviour)] every ProcessTransaction::new call with its TransactionBehavior."""
     out = []
